@@ -71,7 +71,10 @@ fn alphabet(n: u32, scratch: &str) -> Alpha {
     let mut rest: Vec<String> = COMMANDS.iter().chain(KEYWORDS.iter()).map(|s| s.to_string()).collect();
     let numbers = vec![
         "0".to_string(), "1".into(), "-1".into(), "2".into(), n.to_string(), (n + 1).to_string(),
-        (-n - 1).to_string(), "1..2".into(), "2..".into(), "-1..1".into(), "2147483647".into(),
+        (-n - 1).to_string(), "1..2".into(), "2..".into(), "-1..1".into(),
+        // ranges that leave the feature boundary at one end
+        format!("1..{}", n + 1), format!("{}..{}", n, n + 2), format!("{}..1", -n - 1),
+        "2147483647".into(),
         "-2147483648".into(), "2147483648".into(), "18446744073709551615".into(),
         "99999999999999999999".into(),
     ];
@@ -84,7 +87,7 @@ fn alphabet(n: u32, scratch: &str) -> Alpha {
     let rest_red = vec![
         "a".to_string(), "v".into(), "l".into(), "s".into(), "p".into(), "add".into(), "t".into(),
         "1".into(), "-1".into(), "0".into(), (n + 1).to_string(), "1..2".into(), "2..".into(),
-        "-2147483648".into(), "18446744073709551615".into(), "3x".into(),
+        format!("1..{}", n + 1), "-2147483648".into(), "18446744073709551615".into(), "3x".into(),
     ];
     Alpha { first, rest, first_red, rest_red, scratch_path }
 }
